@@ -178,3 +178,22 @@ Definition fin_fired (c : cfg) (es : list ev) : bool := snd (exec_f c es (init, 
 
 (* record --disable: the run starts with tracing switched off *)
 Definition agree4off (p : case4) : bool := let '(a, b, c0, d) := p in agree_case_off a b c0 d.
+
+(* a thread that ends in pthread_exit() with calls still open: the implementation's records against the model
+   (events, then the wrapper's flush of the open calls) ... *)
+Definition ok_pexit (c : cfg) (es : list ev) (orecs : list seen5) : bool :=
+  list_eqb seen_eqb (map seen (out (do_thread_exit c (fst (exec c es (init, [])))))) orecs.
+(* ... and, for the plain configuration within the limits, against the event prefix itself: an ENTRY for every call
+   entered, an EXIT for every call left, depth = number of open calls *)
+Fixpoint prefix_records (es : list ev) (stk : list N) : list rec :=
+  match es with
+  | [] => []
+  | Enter a t :: r => {| r_time := t; r_type := ENTRY; r_depth := N.of_nat (length stk); r_addr := a |} :: prefix_records r (a :: stk)
+  | Leave t :: r => match stk with
+                    | a :: stk' => {| r_time := t; r_type := EXIT; r_depth := N.of_nat (length stk'); r_addr := a |} :: prefix_records r stk'
+                    | [] => prefix_records r []
+                    end
+  | ForkChild :: r => prefix_records r stk
+  end.
+Definition ok_pexit_plain (es : list ev) (orecs : list seen5) : bool :=
+  list_eqb seen_eqb (map seen (prefix_records es [])) orecs.
